@@ -171,6 +171,13 @@ func ShareWithConfig[T any](config ShareConfig[T]) func(Observable[T]) Observabl
 				if config.ResetOnRefCountZero {
 					if refCount == 0 && atomic.LoadInt32(&hasBeenResetOnError) == 0 && atomic.LoadInt32(&hasBeenResetOnCompletion) == 0 {
 						reset(currentSubject, currentSourceSubscription)
+
+						// This teardown may run late (the observer was terminated while its own
+						// Subscribe was still running), after a newer execution has started and
+						// lost its observers: nobody else is left to release that one.
+						if subject != nil && sourceSubscription != nil {
+							reset(subject, sourceSubscription)
+						}
 					}
 				}
 
